@@ -49,6 +49,7 @@ typedef struct tmr {
 	_Atomic uint32_t fires, in_handler;
 	_Atomic int cancelled, cancel_ran, suspended;
 	int must_fire, never_fire, rearm_left, gen;
+	int tiny;                /* interval argument 0 = a 1 ns repeating timer: the handler cancels it after a few invocations */
 	uint64_t first_fire_stamp;
 	struct ttrial *t;
 	vf_rng_t rng;
@@ -63,6 +64,7 @@ typedef struct ttrial {
 	dispatch_queue_t qs[5];   /* serial, concurrent, global, workloop, serial over (serial | workloop) */
 	_Atomic uint64_t resumes_pending;   /* suspends issued from handlers whose balancing resume (a dispatch_after block) has not returned yet */
 	_Atomic uint64_t must_fire_done, cancel_done, after_done, fires_total, rearms, rearms_suspended, rearms_from_target, clock_switches, early;
+	_Atomic uint64_t literal_now, tiny_intervals, huge_intervals, huge_leeways;
 	uint64_t salt;
 	vf_profile_t prof;
 } ttrial_t;
@@ -99,16 +101,31 @@ static void program_timer_locked(tmr_t *m, vf_rng_t *r, int allow_never)
 	if (ic < 4) { m->interval = 0; interval_arg = DISPATCH_TIME_FOREVER; }
 	else { m->interval = vf_rnd_range(r, 100000, 30000000); interval_arg = m->interval; }
 	uint64_t leeway = vf_rnd_n(r, 3) == 0 ? 0 : vf_rnd_range(r, 0, 5000000);
+	/* boundary values of the (interval, leeway) arguments: interval 0 is documented to mean a 1 ns repeating timer, intervals
+	 * and leeways above INT64_MAX are clamped (the timer then repeats no sooner than 292 years later: one boundary) */
+	m->tiny = 0;
+	uint32_t bc = vf_rnd_n(r, 60);
+	if (bc == 0) { m->tiny = 1; m->interval = 1; interval_arg = 0; atomic_fetch_add_explicit(&m->t->tiny_intervals, 1, memory_order_relaxed); }
+	else if (bc < 4) { m->interval = INT64_MAX; interval_arg = (uint64_t)INT64_MAX + 1 + vf_rnd_n(r, 1000); atomic_fetch_add_explicit(&m->t->huge_intervals, 1, memory_order_relaxed); }
+	if (vf_rnd_n(r, 12) == 0) { leeway = vf_rnd_n(r, 2) ? UINT64_MAX : (uint64_t)INT64_MAX + vf_rnd_n(r, 1000); atomic_fetch_add_explicit(&m->t->huge_leeways, 1, memory_order_relaxed); }
 	dispatch_time_t when;
 	if (allow_never && vf_rnd_n(r, 12) == 0) {
 		m->never_fire = 1; m->must_fire = 0; m->start = 0;
 		when = vf_rnd_n(r, 2) ? DISPATCH_TIME_FOREVER : vf_make_deadline(m->clk, 3600ll * 1000000000ll, 0);
 	} else {
 		m->never_fire = 0;
-		when = vf_make_deadline(m->clk, delta, (int)vf_rnd_n(r, 2));
-		vf_deadline_t d = vf_decode_time(when);
-		if (d.kind != m->clk) vf_fail("deadline decoded to clock %d, expected %d", d.kind, m->clk);
-		m->start = d.value;
+		int variant = (int)vf_rnd_n(r, 2);
+		if (delta == 0 && vf_rnd_n(r, 2)) {
+			/* the literal "now" constants: the library reads the clock itself, no earlier than this reading */
+			m->start = vf_now_ns(clk_id(m->clk));
+			when = m->clk == VF_CLK_WALL ? DISPATCH_WALLTIME_NOW : m->clk == VF_CLK_MONO ? (dispatch_time_t)(1ull << 63) : DISPATCH_TIME_NOW;
+			atomic_fetch_add_explicit(&m->t->literal_now, 1, memory_order_relaxed);
+		} else {
+			when = vf_make_deadline(m->clk, delta, variant);
+			vf_deadline_t d = vf_decode_time(when);
+			if (d.kind != m->clk) vf_fail("deadline decoded to clock %d, expected %d", d.kind, m->clk);
+			m->start = d.value;
+		}
 	}
 	m->total = 0;
 	m->gen++;
@@ -177,7 +194,7 @@ static void timer_handler(void *ctx)
 			dispatch_resume(ds);
 			atomic_fetch_sub_explicit(&t->resumes_pending, 1, memory_order_release);
 		});
-	} else if (c < 36 && m->interval && f > 2) {
+	} else if (((c < 36 && f > 2) || (m->tiny && f >= 3)) && m->interval) {
 		atomic_store(&m->cancelled, 1);
 		dispatch_source_cancel(m->ds);
 	}
@@ -277,6 +294,10 @@ static void run_trial(int idx)
 		int64_t delta = vf_rnd_n(&r, 8) == 0 ? -(int64_t)vf_rnd_n(&r, 1000000) : (int64_t)vf_rnd_range(&r, 0, 80000000) * vf_opts.scale / 100;
 		dispatch_time_t when = vf_make_deadline(a->clk, delta, (int)vf_rnd_n(&r, 2));
 		a->deadline = vf_decode_time(when).value;
+		if (vf_rnd_n(&r, 16) == 0) {
+			a->deadline = vf_now_ns(clk_id(a->clk));
+			when = a->clk == VF_CLK_WALL ? DISPATCH_WALLTIME_NOW : a->clk == VF_CLK_MONO ? (dispatch_time_t)(1ull << 63) : DISPATCH_TIME_NOW;
+		}
 		if (vf_rnd_n(&r, 2)) dispatch_after_f(when, t->qs[vf_rnd_n(&r, 5)], a, after_body);
 		else dispatch_after(when, t->qs[vf_rnd_n(&r, 5)], ^{ after_body(a); });
 	}
@@ -333,6 +354,10 @@ static void run_trial(int idx)
 	vf_count("rearms_switching_clock", atomic_load(&t->clock_switches));
 	vf_count("rearms_from_serial_target_item", atomic_load(&t->rearms_from_target));
 	vf_count("dispatch_after_blocks", (uint64_t)na);
+	vf_count("timers_started_at_literal_now", atomic_load(&t->literal_now));
+	vf_count("timers_with_interval_0_meaning_1ns", atomic_load(&t->tiny_intervals));
+	vf_count("timers_with_interval_above_INT64_MAX", atomic_load(&t->huge_intervals));
+	vf_count("timers_with_leeway_above_INT64_MAX", atomic_load(&t->huge_leeways));
 	vf_count("items", atomic_load(&t->fires_total) + (uint64_t)na);
 	vf_emit("trial", "\"n\":1,\"sig\":\"tmr-%d-%d-%d-%d\",\"nontrivial\":%s,\"sample\":{\"trial\":%d,\"timers\":%d,\"had_to_fire\":%llu,\"fires\":%llu,\"rearms_from_handler\":%llu,\"dispatch_after\":%d,\"heap_max_entries\":%llu,\"perturb\":\"%s\"}",
 			vf_log2_bucket((uint64_t)t->n), t->prof.kind, vf_log2_bucket(atomic_load(&t->fires_total)), vf_log2_bucket(atomic_load(&t->rearms)),
